@@ -351,7 +351,7 @@ func vfC36GenW(rt *rapid.T) vfC36WPlan {
 		Expire:   rapid.SampledFrom([]int64{int64(3 * time.Minute), int64(30 * time.Second), int64(5 * time.Second), int64(3 * time.Minute), int64(time.Minute), 1, 0}).Draw(rt, "expire"),
 		Penalty:  rapid.SampledFrom([]float64{0, 1, 1, 0.5, 2, 100}).Draw(rt, "penalty"),
 	}
-	nev := rapid.IntRange(1, vk.Pick(25, 80)).Draw(rt, "nev")
+	nev := rapid.IntRange(8, vk.Pick(30, 80)).Draw(rt, "nev")
 	for i := 0; i < nev; i++ {
 		var e vfC36Ev
 		switch rapid.IntRange(0, 9).Draw(rt, "dtkind") {
@@ -513,7 +513,7 @@ func vfC36Close(got, want float64) bool {
 func TestVerifC36Weight(t *testing.T) {
 	vk.Check(t, vk.Unit[vfC36WPlan]{
 		ID: "C36", Name: "weight",
-		Rule: "timelines of up to 25/80 events (usable ORCA report with qps/cpu/app utilization/eps, empty report, weight() query) with gaps from {0, blackout±1ns, expiration±1ns, 0..4s, 0..5min}; blackout in {0,1ns,1s,10s,1m}, expiration in {0,1ns,5s,30s,3m}, penalty in {0,.5,1,2,100}; explicit clock through internal.TimeNow and weight(now). Model: 0 before the first usable report, 0 when now-latest >= expiration, 0 while less than blackout since the first report of the current streak, else qps/(util+eps/qps*penalty) within 1e-12 relative. non-trivial = a usable weight and a blackout or expiration were both observed",
+		Rule: "timelines of 8..30/80 events (usable ORCA report with qps/cpu/app utilization/eps, empty report, weight() query) with gaps from {0, blackout±1ns, expiration±1ns, 0..2*expiration, 0..blackout, 0..expiration/4, 0..1s}; blackout in {0,1ns,1s,10s,1m}, expiration in {0,1ns,5s,30s,1m,3m}, penalty in {0,.5,1,2,100}; explicit clock through internal.TimeNow and weight(now). Model: 0 before the first usable report, 0 when now-latest >= expiration, 0 while less than blackout since the first report of the current streak, else qps/(util+eps/qps*penalty) within 1e-12 relative. non-trivial = a usable weight and a blackout or expiration were both observed",
 		Gen:  vfC36GenW, Run: vfC36RunW,
 	})
 }
